@@ -284,6 +284,38 @@ func checkComments(c *Ctx) {
 				if idx > 1 {
 					key += "#" + itoa(idx)
 				}
+				// the comment is a parameter of a package-local helper: the obligation moves to every call site
+				if id, isID := ast.Unparen(val).(*ast.Ident); isID {
+					pidx := -1
+					k := 0
+					for _, fld := range fi.Decl.Type.Params.List {
+						for _, nm := range fld.Names {
+							if info.ObjectOf(nm) == info.ObjectOf(id) {
+								pidx = k
+							}
+							k++
+						}
+					}
+					if pidx >= 0 {
+						sites := 0
+						c.AllFuncs(false, func(cf *FuncInfo) {
+							if cf.Pkg != fi.Pkg {
+								return
+							}
+							for _, call := range callsIn(cf.Decl.Body, true) {
+								if calleeOf(cf.Info(), call) != fi.Obj || pidx >= len(call.Args) {
+									continue
+								}
+								sites++
+								ok, why := safeComment(cf.Info(), call.Args[pidx], cf.Decl.Body)
+								c.Check("R07b", cf.Name+"|Comment passed to "+fi.Decl.Name.Name+"#"+itoa(sites), call.Args[pidx].Pos(), ok, "the comment %s %s: a newline in it would turn the rest into an executable line of the migration file", types.ExprString(call.Args[pidx]), why)
+							}
+						})
+						if sites > 0 {
+							return true
+						}
+					}
+				}
 				ok, why := safeComment(info, val, fi.Decl.Body)
 				c.Check("R07b", key, val.Pos(), ok, "the comment %s %s: a newline in it would turn the rest into an executable line of the migration file", types.ExprString(val), why)
 				return true
